@@ -88,7 +88,13 @@ pub(super) unsafe fn sys_enter(
             if flags & abi::ENTER_SQ_WAKEUP != 0 {
                 sim.sqpoll_wake(idx);
             }
-            // The kernel thread consumes on its own (driver's kernel steps).
+            // The kernel thread consumes on its own (driver's kernel steps),
+            // or, when modelled as prompt, right now.
+            if sim.rings[idx].sqpoll_auto && !sim.rings[idx].sqpoll_idle {
+                sim.rings[idx].inline = true;
+                consumed = sim.consume_and_dispatch(idx, u32::MAX);
+                sim.rings[idx].inline = false;
+            }
             ret = to_submit as i32;
         } else if to_submit > 0 {
             sim.rings[idx].inline = true;
@@ -211,6 +217,7 @@ fn placeholder_ring() -> super::SimRing {
         enabled: false,
         closed: true,
         sqpoll_idle: false,
+        sqpoll_auto: false,
         posted: Vec::new(),
         next_seq: 0,
         sync_cancels: 0,
